@@ -999,50 +999,99 @@ func c03StateTables(c *Ctx, rule string) {
 	p := c.P
 	want := map[string]string{"added": "Added", "modified": "Modified", "renamed": "Moved", "removed": "Removed", "unmodified": "Noop", "any": "*"}
 	if sm := c.MustFunc(rule, "internal/config.stateMatches"); sm != nil {
+		// decided by evaluation (minieval.go): stateMatches is run on every one-word list, on the empty
+		// list, on an unknown word and on two-word lists, against every change type
 		info := sm.Pkg.TypesInfo
-		got := map[string]string{}
-		for _, sw := range findSwitches(sm.Decl.Body, func(s *ast.SwitchStmt) bool { return s.Tag != nil }) {
-			cases, _ := switchCases(sw)
-			for _, cs := range cases {
-				word, ok := constString(info, cs.Expr)
-				if !ok {
-					c.Undecided(rule, "stateMatches:case:"+exprStr(cs.Expr), cs.Expr.Pos(), "case label is not a constant")
-					continue
+		sig := sm.Obj.Type().(*types.Signature)
+		if sig.Params().Len() != 2 {
+			c.Undecided(rule, "stateMatches:signature", sm.Decl.Pos(), "expected (states []string, state ChangeType)")
+			return
+		}
+		statesP, stateP := sig.Params().At(0), sig.Params().At(1)
+		types_ := []string{"Unknown", "Noop", "Added", "Modified", "Removed", "Moved"}
+		tval := map[string]int64{}
+		for _, tn := range types_ {
+			k, _ := p.LookupObj("internal/discovery", tn).(*types.Const)
+			if k == nil {
+				c.Undecided(rule, "anchor:discovery."+tn, token.NoPos, "change type constant not found")
+				return
+			}
+			v, _ := constantInt(k)
+			tval[tn] = v
+		}
+		run := func(states []string, tn string) (bool, string) {
+			ev := &miniEval{info: info, prog: c.P, env: map[types.Object]mval{}}
+			ev.env[statesP] = mList(states)
+			ev.env[stateP] = mval{k: mvInt, i: tval[tn]}
+			ctl := ev.block(sm.Decl.Body.List)
+			if ev.undec != "" {
+				return false, ev.undec
+			}
+			if ctl.kind != 'r' || ctl.ret.k != mvBool {
+				return false, "no boolean result"
+			}
+			return ctl.ret.b, ""
+		}
+		undecided := ""
+		for _, w := range sortedKeys(want) {
+			got := ""
+			for _, tn := range types_ {
+				r, u := run([]string{w}, tn)
+				if u != "" {
+					undecided = u
+					break
 				}
-				val := ""
-				for _, st := range cs.Clause.Body {
-					switch x := st.(type) {
-					case *ast.ReturnStmt:
-						if exprStr(x.Results[0]) == "true" && val == "" {
-							val = "*"
-						}
-					case *ast.IfStmt:
-						if be, ok := ast.Unparen(x.Cond).(*ast.BinaryExpr); ok && be.Op == token.EQL {
-							k := constObj(info, be.Y)
-							if k == nil {
-								k = constObj(info, be.X)
-							}
-							rets := returnsIn(x.Body.List)
-							if k != nil && len(rets) == 1 && exprStr(rets[0].Results[0]) == "true" {
-								val = k.Name()
-							}
-						}
+				if r {
+					if got == "" {
+						got = tn
+					} else {
+						got = "*"
 					}
 				}
-				got[word] = val
 			}
-		}
-		for _, w := range sortedKeys(want) {
-			c.Check(got[w] == want[w], rule, "stateMatches:"+w+"->"+want[w], sm.Decl.Pos(), "documented meaning", "state word "+strq(w)+" matches change type "+strq(got[w])+", documented meaning is "+want[w])
-		}
-		for w := range got {
-			if _, ok := want[w]; !ok {
-				c.Bad(rule, "stateMatches:extra:"+w, sm.Decl.Pos(), "undocumented state word")
+			if undecided != "" {
+				break
 			}
+			if want[w] == "*" && got == "*" {
+				// every change type
+				all := true
+				for _, tn := range types_ {
+					if r, _ := run([]string{w}, tn); !r {
+						all = false
+					}
+				}
+				if !all {
+					got = "some"
+				}
+			}
+			c.Check(got == want[w], rule, "stateMatches:"+w+"->"+want[w], sm.Decl.Pos(), "documented meaning", "state word "+strq(w)+" matches change type "+strq(got)+", documented meaning is "+want[w])
 		}
-		// fallthrough returns false
-		rets := returnsIn(sm.Decl.Body.List)
-		c.Check(len(rets) > 0 && exprStr(rets[len(rets)-1].Results[0]) == "false", rule, "stateMatches:no match -> false", sm.Decl.Pos(), "false", "stateMatches does not end with `return false`")
+		if undecided != "" {
+			c.Undecided(rule, "stateMatches:evaluation", sm.Decl.Pos(), "stateMatches could not be evaluated: "+undecided)
+		} else {
+			bad := ""
+			for _, tn := range types_ {
+				if r, _ := run(nil, tn); r {
+					bad = "an empty list matches " + tn
+				}
+				if r, _ := run([]string{"bogus"}, tn); r {
+					bad = "the unknown word \"bogus\" matches " + tn
+				}
+				// a list is a disjunction of its words, whatever their order
+				for _, pair := range [][]string{{"added", "removed"}, {"removed", "added"}, {"bogus", "modified"}, {"unmodified", "bogus"}} {
+					wantPair := false
+					for _, w := range pair {
+						if want[w] == tn {
+							wantPair = true
+						}
+					}
+					if r, _ := run(pair, tn); r != wantPair && bad == "" {
+						bad = "[" + strings.Join(pair, ",") + "] against " + tn + " gives " + boolStr(r)
+					}
+				}
+			}
+			c.Check(bad == "", rule, "stateMatches:no match -> false", sm.Decl.Pos(), "false", "stateMatches is not the disjunction of its words: "+bad)
+		}
 	}
 	ci, pos, ok := stringSliceVar(p, "internal/config", "CIStates")
 	if !ok {
